@@ -652,7 +652,7 @@ func mergeAndPersistSynonymSection(segments []*SegmentBase, dropsIn []*roaring.B
 		for err == nil {
 			term, itrI, postingsOffset := enumerator.Current()
 
-			if prevTerm != nil && !bytes.Equal(prevTerm, term) {
+			if !bytes.Equal(prevTerm, term) {
 				// check for the closure in meantime
 				if isClosed(closeCh) {
 					return nil, nil, seg.ErrClosed
@@ -711,11 +711,11 @@ func mergeAndPersistSynonymSection(segments []*SegmentBase, dropsIn []*roaring.B
 			return nil, nil, err
 		}
 
-		if prevTerm != nil {
-			err = finishTerm(prevTerm)
-			if err != nil {
-				return nil, nil, err
-			}
+		// prevTerm stays nil when the only term seen is the empty term;
+		// finishTerm writes nothing when no synonyms were collected
+		err = finishTerm(prevTerm)
+		if err != nil {
+			return nil, nil, err
 		}
 
 		err = newVellum.Close()
